@@ -792,3 +792,156 @@ Proof.
   rewrite rd_sp, rd_lbracket. sst. unfold parse_enum_entity. sst. rewrite Hrd_v. sst. rewrite Hp_v. sst.
   rewrite rd_nl, Hrd. sst. cbn [add_enums]. rewrite Hhk. reflexivity.
 Qed.
+
+(* ------------------------------------------------------------------------------------------ *)
+(* Declarations: actions                                                                       *)
+(* ------------------------------------------------------------------------------------------ *)
+Definition frag_ain (fuel : nat) (st1 : pst) : spres (list (str * str) * pst) :=
+  if is st1 KReserved && kw st1 "in" then (st2 <- read_token st1 ;; parse_action_parents fuel st2) else SOk ([], st1).
+Definition frag_applies (fuel : nat) (st2 : pst) : spres (option x_applies * pst) :=
+  if is st2 KIdent && kw st2 "appliesTo" then
+    st3 <- read_token st2 ;; ' (at_, st4) <- parse_applies_to fuel st3 ;; SOk (Some at_, st4)
+  else SOk (None, st2).
+Definition frag_attrs (st3 : pst) : spres pst :=
+  if is st3 KIdent && kw st3 "attributes" then
+    st4 <- read_token st3 ;; st5 <- expect KLBrace st4 ;; expect KRBrace st5
+  else SOk st3.
+
+Lemma parse_action_eq : forall fuel an n st,
+  parse_action fuel an n st =
+  (' (names, st1) <- parse_names fuel st ;;
+   ' (member_of, st2) <- frag_ain fuel st1 ;;
+   ' (applies, st3) <- frag_applies fuel st2 ;;
+   st4 <- frag_attrs st3 ;;
+   st5 <- expect KSemicolon st4 ;;
+   match add_actions names {| xac_annots := an; xac_parents := member_of; xac_applies := applies |} n with
+   | Some n' => SOk (n', st5)
+   | None => SErr
+   end).
+Proof. reflexivity. Qed.
+
+Definition G2 (st : pst) : Prop := tk st = KSemicolon \/ (tk st = KIdent /\ txt st = s_of "appliesTo").
+Definition G1 (st : pst) : Prop := tk st = KReserved \/ G2 st.
+Ltac gtk H := unfold G1, G2 in H; repeat match type of H with _ \/ _ => destruct H as [H|H] end;
+              [..|destruct H as [H ?Ht]]; rewrite ?is_tk, H; try reflexivity.
+Lemma G1_comma : forall st, G1 st -> is st KComma = false.
+Proof. intros st H. gtk H. Qed.
+Lemma G2_in : forall st, G2 st -> is st KReserved && kw st "in" = false.
+Proof. intros st H. gtk H. Qed.
+Lemma G2_dcolon : forall st, G2 st -> is st KDoubleColon = false.
+Proof. intros st H. gtk H. Qed.
+
+Definition aparents_text (l : list (str * str)) : str :=
+  match l with [] => [] | _ => s_of " in " ++ print_list (map print_parent_ref l) end.
+Definition applies_opt_text (ind : nat) (o : option x_applies) : str :=
+  match o with None => [] | Some ap => print_applies ind ap end.
+Definition ctx_text (ind : nat) (c : option xty) : str :=
+  match c with
+  | None => [10]
+  | Some t => 44 :: 10 :: tabs (S ind) ++ s_of "context" ++ 58 :: 32 :: print_type t (S ind) ++ [10]
+  end.
+Definition applies_nf (ind : nat) (ps rs : list str) (c : option xty) (X : str) : str :=
+  32 :: s_of "appliesTo" ++ 32 :: 123 :: 10 :: tabs (S ind) ++ s_of "principal" ++ 58 :: 32 :: print_list ps
+  ++ 44 :: 10 :: tabs (S ind) ++ s_of "resource" ++ 58 :: 32 :: print_list rs ++ ctx_text ind c ++ tabs ind ++ 125 :: X.
+
+Lemma print_applies_nf : forall ind a X, xa_principals a <> [] -> xa_resources a <> [] ->
+  print_applies ind a ++ X = applies_nf ind (xa_principals a) (xa_resources a) (xa_context a) X.
+Proof.
+  intros ind [ps rs c] X Hp Hr. cbn [xa_principals xa_resources xa_context] in *.
+  destruct ps as [|p ps]; [contradiction|]. destruct rs as [|r rs]; [contradiction|].
+  unfold print_applies, applies_nf, ctx_text. cbn [xa_principals xa_resources xa_context].
+  destruct c as [t|]; repeat (first [rewrite <- app_assoc | progress cbn [app]]); reflexivity.
+Qed.
+
+Ltac tnorm := repeat (first [rewrite <- app_assoc | progress cbn [app]]).
+Ltac tnorm_in H := repeat (first [rewrite <- app_assoc in H | progress cbn [app] in H]).
+
+Lemma rd_close : forall ind X, rd (10 :: tabs ind ++ 125 :: X) = SOk (MkSt (mk_tok KRBrace [125]) X).
+Proof. intros ind X. rewrite rd_nl, rd_tabs. apply rd_rbrace. Qed.
+
+Lemma frag_applies_lemma : forall o ind fuel rest, match o with Some a => wf_applies_t a | None => true end = true ->
+  (2 * length (applies_opt_text ind o ++ 59%Z :: 10%Z :: rest) + 8 <= fuel)%nat ->
+  exists st, rd (applies_opt_text ind o ++ 59 :: 10 :: rest) = SOk st
+             /\ frag_applies fuel st = SOk (option_map norm_applies_t o, MkSt (mk_tok KSemicolon [59]) (10 :: rest)) /\ G2 st.
+Proof.
+  intros [a|] ind fuel rest Hwf Hf; cbn [applies_opt_text option_map] in *.
+  2:{ cbn [app]. eexists. split; [apply rd_semi|]. split; [reflexivity|left; reflexivity]. }
+  unfold wf_applies_t in Hwf. destruct a as [ps rs c]. cbn [xa_principals xa_resources xa_context] in Hwf.
+  apply andb_true_iff in Hwf. destruct Hwf as [Hwf Hc]. apply andb_true_iff in Hwf. destruct Hwf as [Hwf Hrs].
+  apply andb_true_iff in Hwf. destruct Hwf as [Hwf Hrn]. apply andb_true_iff in Hwf. destruct Hwf as [Hpn Hps].
+  destruct ps as [|p ps]; [discriminate|]. destruct rs as [|r rs]; [discriminate|].
+  rewrite print_applies_nf in Hf |- * by (cbn; discriminate). cbn [xa_principals xa_resources xa_context] in Hf |- *.
+  unfold applies_nf, norm_applies_t in *. cbn [xa_principals xa_resources xa_context].
+  destruct fuel as [|f1]; [exfalso; flen|]. destruct f1 as [|f2]; [exfalso; flen|].
+  destruct f2 as [|f3]; [exfalso; flen|]. destruct f3 as [|f4]; [exfalso; flen|].
+  destruct c as [t|]; cbn [ctx_text opt_wf_tty option_map] in *; tnorm; tnorm_in Hf.
+  - set (T3 := 10 :: tabs ind ++ 125 :: 59 :: 10 :: rest) in *.
+    set (T2 := 44 :: 10 :: tabs (S ind) ++ s_of "context" ++ 58 :: 32 :: print_type t (S ind) ++ T3) in *.
+    set (T1 := 44 :: 10 :: tabs (S ind) ++ s_of "resource" ++ 58 :: 32 :: print_list (r :: rs) ++ T2) in *.
+    destruct (type_lemma t (S ind) (S f4) T3 _ Hc eq_refl (rd_close _ _) eq_refl ltac:(subst T1 T2 T3; flen)) as (st_t & Hrd_t & Hp_t).
+    destruct (entity_types_lemma (r :: rs) (S (S f4)) T2 _ ltac:(discriminate) Hrs eq_refl (rd_comma _) eq_refl ltac:(subst T1 T2 T3; flen))
+      as (st_rs & Hrd_rs & Hp_rs & _).
+    destruct (entity_types_lemma (p :: ps) (S (S (S f4))) T1 _ ltac:(discriminate) Hps eq_refl (rd_comma _) eq_refl ltac:(subst T1 T2 T3; flen))
+      as (st_ps & Hrd_ps & Hp_ps & _).
+    subst T1 T2 T3.
+    eexists. split; [rewrite rd_sp; apply (rd_kw "appliesTo" KIdent); reflexivity|]. split; [|right; split; reflexivity].
+    unfold frag_applies. sst. rewrite rd_sp, rd_lbrace. sst. unfold parse_applies_to. sst.
+    rewrite rd_nl, rd_tabs, (rd_kw "principal" KIdent) by reflexivity.
+    cbn [applies_loop]. sst. rewrite rd_colon_sp. sst. rewrite rd_sp, Hrd_ps. sst. rewrite Hp_ps. sst.
+    rewrite rd_nl, rd_tabs, (rd_kw "resource" KIdent) by reflexivity.
+    cbn [applies_loop]. sst. rewrite rd_colon_sp. sst. rewrite rd_sp, Hrd_rs. sst. rewrite Hp_rs. sst.
+    rewrite rd_nl, rd_tabs, (rd_kw "context" KIdent) by reflexivity.
+    cbn [applies_loop]. sst. rewrite rd_colon_sp. sst. rewrite rd_sp, Hrd_t. sst. rewrite Hp_t. sst.
+    cbn [applies_loop]. sst. rewrite rd_semi. reflexivity.
+  - set (T2 := 10 :: tabs ind ++ 125 :: 59 :: 10 :: rest) in *.
+    set (T1 := 44 :: 10 :: tabs (S ind) ++ s_of "resource" ++ 58 :: 32 :: print_list (r :: rs) ++ T2) in *.
+    destruct (entity_types_lemma (r :: rs) (S (S f4)) T2 _ ltac:(discriminate) Hrs eq_refl (rd_close _ _) eq_refl ltac:(subst T1 T2; flen))
+      as (st_rs & Hrd_rs & Hp_rs & _).
+    destruct (entity_types_lemma (p :: ps) (S (S (S f4))) T1 _ ltac:(discriminate) Hps eq_refl (rd_comma _) eq_refl ltac:(subst T1 T2; flen))
+      as (st_ps & Hrd_ps & Hp_ps & _).
+    subst T1 T2.
+    eexists. split; [rewrite rd_sp; apply (rd_kw "appliesTo" KIdent); reflexivity|]. split; [|right; split; reflexivity].
+    unfold frag_applies. sst. rewrite rd_sp, rd_lbrace. sst. unfold parse_applies_to. sst.
+    rewrite rd_nl, rd_tabs, (rd_kw "principal" KIdent) by reflexivity.
+    cbn [applies_loop]. sst. rewrite rd_colon_sp. sst. rewrite rd_sp, Hrd_ps. sst. rewrite Hp_ps. sst.
+    rewrite rd_nl, rd_tabs, (rd_kw "resource" KIdent) by reflexivity.
+    cbn [applies_loop]. sst. rewrite rd_colon_sp. sst. rewrite rd_sp, Hrd_rs. sst. rewrite Hp_rs. sst.
+    cbn [applies_loop]. sst. rewrite rd_semi. reflexivity.
+Qed.
+
+Lemma frag_ain_lemma : forall parents fuel X st2, forallb wf_parent parents = true -> rd X = SOk st2 -> G2 st2 -> stopb X = true ->
+  (2 * length (aparents_text parents ++ X) + 5 <= fuel)%nat ->
+  exists st, rd (aparents_text parents ++ X) = SOk st /\ frag_ain fuel st = SOk (parents, st2) /\ G1 st.
+Proof.
+  intros parents fuel X st2 Hwf HrdX HG Hstop Hf. destruct parents as [|p ps].
+  - exists st2. split; [exact HrdX|]. split; [|right; exact HG]. unfold frag_ain. rewrite (G2_in _ HG). reflexivity.
+  - unfold aparents_text in *. change (s_of " in ") with (32 :: s_of "in" ++ [32]) in Hf |- *. tnorm. tnorm_in Hf.
+    destruct (action_parents_lemma (p :: ps) fuel X st2 ltac:(discriminate) Hwf Hstop HrdX (G2_dcolon _ HG) ltac:(flen)) as (st & Hrds & Hp).
+    eexists. split; [rewrite rd_sp; apply (rd_kw "in" KReserved); reflexivity|]. split; [|left; reflexivity].
+    unfold frag_ain. sst. rewrite rd_sp, Hrds. sst. exact Hp.
+Qed.
+
+Lemma stopb_act_tail : forall ind o rest, stopb (applies_opt_text ind o ++ 59 :: 10 :: rest) = true.
+Proof. intros ind [a|] rest; reflexivity. Qed.
+Lemma stopb_act_tail1 : forall ind parents o rest, stopb (aparents_text parents ++ applies_opt_text ind o ++ 59 :: 10 :: rest) = true.
+Proof. intros ind [|p ps] o rest; [apply stopb_act_tail|reflexivity]. Qed.
+
+Lemma action_decl : forall ind key a an n fuel rest st',
+  name_ok key = true -> wf_action_t a = true -> has_key key (xs_actions n) = false -> rd rest = SOk st' ->
+  (2 * length (print_name key ++ aparents_text (xac_parents a) ++ applies_opt_text ind (xac_applies a) ++ 59%Z :: 10%Z :: rest) + 10 <= fuel)%nat ->
+  parse_decl fuel an n (MkSt (mk_tok KIdent (s_of "action"))
+                             (32 :: print_name key ++ aparents_text (xac_parents a) ++ applies_opt_text ind (xac_applies a) ++ 59 :: 10 :: rest))
+  = SOk (set_actions n (rec_insert key {| xac_annots := an; xac_parents := xac_parents a; xac_applies := option_map norm_applies_t (xac_applies a) |}
+                                   (xs_actions n)), st').
+Proof.
+  intros ind key a an n fuel rest st' Hkey Hwf Hhk Hrd Hf.
+  unfold wf_action_t in Hwf. apply andb_true_iff in Hwf. destruct Hwf as [Hwf Happ]. apply andb_true_iff in Hwf. destruct Hwf as [_ Hpar].
+  destruct (frag_applies_lemma (xac_applies a) ind fuel rest Happ ltac:(flen)) as (st2 & Hrd2 & Hp2 & HG2).
+  destruct (frag_ain_lemma (xac_parents a) fuel _ st2 Hpar Hrd2 HG2 (stopb_act_tail _ _ _) ltac:(flen)) as (st1 & Hrd1 & Hp1 & HG1).
+  destruct (name_lemma key _ st1 Hkey (stopb_act_tail1 ind (xac_parents a) (xac_applies a) rest) Hrd1) as (st0 & Hrd0 & Hp0 & _).
+  unfold parse_decl. sst. rewrite rd_sp, Hrd0. sst.
+  rewrite parse_action_eq. unfold parse_names. rewrite Hp0. cbn [sbind].
+  destruct fuel as [|f]; [exfalso; flen|]. cbn [names_rest]. rewrite (G1_comma _ HG1). cbn [negb sbind].
+  rewrite Hp1. cbn [sbind]. rewrite Hp2. cbn [sbind]. unfold frag_attrs. sst.
+  rewrite rd_nl, Hrd. sst. cbn [add_actions]. rewrite Hhk. reflexivity.
+Qed.
